@@ -7,6 +7,10 @@ import re
 
 V = "/verif"
 props = {json.loads(l)["id"]: json.loads(l) for l in open(V + "/properties.jsonl")}
+FIRST = {}
+for b, ss in json.load(open(V + "/seeded/first_run.json"))["batches"].items():
+    for k, v in ss.items():
+        FIRST[k] = {"batch": b, "result": v}
 for d in sorted(os.listdir(V + "/seeded")):
     sd = os.path.join(V, "seeded", d)
     if not re.match(r"C\d\d-seed\d+$", d) or not os.path.exists(sd + "/patch.diff"):
@@ -43,6 +47,7 @@ for d in sorted(os.listdir(V + "/seeded")):
         },
         "detected_by": [{"check": k, "exit": v["exit"], "finding_keys": v["keys"]} for k, v in (det.get("checks") or {}).items() if v["exit"] == 1],
         "detected": det.get("detected"),
+        "first_run": FIRST.get(d, {"batch": "round 1", "result": "see DESIGN 9.3 (rules strengthened after round 1 are listed there)"}),
         "how_detected": "git -C /repo apply patch.diff; ./check <Cxx>; git -C /repo checkout -- .  (bin/seed_detect.py)",
     }
     with open(sd + "/meta.json", "w") as fh:
